@@ -1,0 +1,117 @@
+// Copyright 2026 The Cockroach Authors.
+//
+// Licensed under the Apache License, Version 2.0 (the "License");
+// you may not use this file except in compliance with the License.
+// You may obtain a copy of the License at
+//
+//     http://www.apache.org/licenses/LICENSE-2.0
+//
+// Unless required by applicable law or agreed to in writing, software
+// distributed under the License is distributed on an "AS IS" BASIS,
+// WITHOUT WARRANTIES OR CONDITIONS OF ANY KIND, either express or
+// implied. See the License for the specific language governing
+// permissions and limitations under the License.
+
+//go:build verif
+// +build verif
+
+package errbase
+
+import "sort"
+
+// This file is only compiled with the build tag "verif". It lets a
+// simulation harness give each simulated process its own copy of the
+// process-global encoder/decoder/migration registries. It adds code
+// only; nothing in the regular build refers to it.
+
+// VerifRegistries is a copy of the six process-global registries.
+type VerifRegistries struct {
+	LeafEncoders       map[TypeKey]LeafEncoder
+	Encoders           map[TypeKey]WrapperEncoderWithMessageType
+	LeafDecoders       map[TypeKey]LeafDecoder
+	Decoders           map[TypeKey]WrapperDecoder
+	MultiCauseDecoders map[TypeKey]MultiCauseDecoder
+	Backward           map[TypeKey]TypeKey
+}
+
+// Clone returns a deep copy (of the maps; the functions are shared).
+func (r *VerifRegistries) Clone() *VerifRegistries {
+	c := &VerifRegistries{
+		LeafEncoders:       make(map[TypeKey]LeafEncoder, len(r.LeafEncoders)),
+		Encoders:           make(map[TypeKey]WrapperEncoderWithMessageType, len(r.Encoders)),
+		LeafDecoders:       make(map[TypeKey]LeafDecoder, len(r.LeafDecoders)),
+		Decoders:           make(map[TypeKey]WrapperDecoder, len(r.Decoders)),
+		MultiCauseDecoders: make(map[TypeKey]MultiCauseDecoder, len(r.MultiCauseDecoders)),
+		Backward:           make(map[TypeKey]TypeKey, len(r.Backward)),
+	}
+	for k, v := range r.LeafEncoders {
+		c.LeafEncoders[k] = v
+	}
+	for k, v := range r.Encoders {
+		c.Encoders[k] = v
+	}
+	for k, v := range r.LeafDecoders {
+		c.LeafDecoders[k] = v
+	}
+	for k, v := range r.Decoders {
+		c.Decoders[k] = v
+	}
+	for k, v := range r.MultiCauseDecoders {
+		c.MultiCauseDecoders[k] = v
+	}
+	for k, v := range r.Backward {
+		c.Backward[k] = v
+	}
+	return c
+}
+
+// VerifSnapshotRegistries returns a copy of the live registries.
+func VerifSnapshotRegistries() *VerifRegistries {
+	live := &VerifRegistries{
+		LeafEncoders:       leafEncoders,
+		Encoders:           encoders,
+		LeafDecoders:       leafDecoders,
+		Decoders:           decoders,
+		MultiCauseDecoders: multiCauseDecoders,
+		Backward:           backwardRegistry,
+	}
+	return live.Clone()
+}
+
+// VerifInstallRegistries replaces the live registries by a copy of r.
+func VerifInstallRegistries(r *VerifRegistries) {
+	c := r.Clone()
+	leafEncoders = c.LeafEncoders
+	encoders = c.Encoders
+	leafDecoders = c.LeafDecoders
+	decoders = c.Decoders
+	multiCauseDecoders = c.MultiCauseDecoders
+	backwardRegistry = c.Backward
+}
+
+// VerifRegisteredKeys lists the keys of the live registries, sorted.
+func VerifRegisteredKeys() (leafEnc, wrapEnc, leafDec, wrapDec, multiDec, migrated []TypeKey) {
+	for k := range leafEncoders {
+		leafEnc = append(leafEnc, k)
+	}
+	for k := range encoders {
+		wrapEnc = append(wrapEnc, k)
+	}
+	for k := range leafDecoders {
+		leafDec = append(leafDec, k)
+	}
+	for k := range decoders {
+		wrapDec = append(wrapDec, k)
+	}
+	for k := range multiCauseDecoders {
+		multiDec = append(multiDec, k)
+	}
+	for k := range backwardRegistry {
+		migrated = append(migrated, k)
+	}
+	for _, s := range [][]TypeKey{leafEnc, wrapEnc, leafDec, wrapDec, multiDec, migrated} {
+		s := s
+		sort.Slice(s, func(i, j int) bool { return s[i] < s[j] })
+	}
+	return
+}
